@@ -195,6 +195,8 @@ def strip_attrs(s):
 class Translator:
     def __init__(self, text, keep=None):
         self.T = Types()
+        # quoted names (templates with spaces/commas) are renamed to plain identifiers first
+        text = re.sub(r'([%@])"([^"]+)"', lambda m: m.group(1) + 'q_' + re.sub(r'[^A-Za-z0-9_.]', '_', m.group(2)), text)
         self.text = text
         self.out = []
         self.globals = {}
